@@ -627,7 +627,8 @@ const KITTY_MAX_DIM: u64 = 65536;
 
 /// Identification for image data
 fn kitty_image_id(img: &Image) -> u64 {
-    img.hash() % KITTY_MAX_ID
+    // zero is not a valid identifier
+    img.hash() % KITTY_MAX_ID + 1
 }
 
 /// Identification of particular placement of the image
@@ -636,10 +637,15 @@ fn kitty_image_id(img: &Image) -> u64 {
 /// but in particular implementation it is bound to a physical position on
 /// the screen.
 fn kitty_placement_id(pos: Position) -> u64 {
-    (pos.row as u64 % KITTY_MAX_DIM) + (pos.col as u64 % KITTY_MAX_DIM) * KITTY_MAX_DIM
+    // zero means "unspecified placement" in the protocol (deleting it removes all
+    // placements of the image), so identifiers start from one
+    ((pos.row as u64 % KITTY_MAX_DIM) + (pos.col as u64 % KITTY_MAX_DIM) * KITTY_MAX_DIM)
+        % KITTY_MAX_ID
+        + 1
 }
 
 fn kitty_placement_to_pos(placement_id: u64) -> Position {
+    let placement_id = placement_id.saturating_sub(1);
     Position {
         col: (placement_id / KITTY_MAX_DIM) as usize,
         row: (placement_id % KITTY_MAX_DIM) as usize,
